@@ -10,7 +10,7 @@ namespace DD
 
 /-! ### small list facts -/
 
-theorem mem_dedup (a : Nat) : ∀ l : List Nat, a ∈ dedup l ↔ a ∈ l := by
+theorem mem_dedup_nat (a : Nat) : ∀ l : List Nat, a ∈ dedup l ↔ a ∈ l := by
   intro l
   induction l with
   | nil => simp [dedup]
@@ -41,7 +41,7 @@ theorem mem_dedup (a : Nat) : ∀ l : List Nat, a ∈ dedup l ↔ a ∈ l := by
         · exact h
     · rw [List.mem_cons, List.mem_cons, ih]
 
-theorem mem_insertSorted (x a : Nat) : ∀ l : List Nat, x ∈ insertSorted a l ↔ x = a ∨ x ∈ l := by
+theorem mem_insertSorted_nat (x a : Nat) : ∀ l : List Nat, x ∈ insertSorted a l ↔ x = a ∨ x ∈ l := by
   intro l
   induction l with
   | nil => simp [insertSorted]
@@ -60,17 +60,17 @@ theorem mem_insertSorted (x a : Nat) : ∀ l : List Nat, x ∈ insertSorted a l 
         · exact Or.inl h
         · exact Or.inr (Or.inr h)
 
-theorem mem_sortNat (x : Nat) : ∀ l : List Nat, x ∈ sortNat l ↔ x ∈ l := by
+theorem mem_sortNat_nat (x : Nat) : ∀ l : List Nat, x ∈ sortNat l ↔ x ∈ l := by
   intro l
   induction l with
   | nil => simp [sortNat]
   | cons b l ih =>
     have : sortNat (b :: l) = insertSorted b (sortNat l) := rfl
-    rw [this, mem_insertSorted, ih, List.mem_cons]
+    rw [this, mem_insertSorted_nat, ih, List.mem_cons]
 
 /-- the sorted duplicate-free list has the same elements -/
 theorem mem_ordvar (x : Nat) (l : List Nat) : x ∈ sortNat (dedup l) ↔ x ∈ l := by
-  rw [mem_sortNat, mem_dedup]
+  rw [mem_sortNat_nat, mem_dedup_nat]
 
 theorem lookup_some_mem {α β} [BEq α] [LawfulBEq α] (k : α) (v : β) :
     ∀ l : List (α × β), l.lookup k = some v → (k, v) ∈ l := by
